@@ -148,7 +148,11 @@ carquet_bloom_filter_t* carquet_bloom_filter_create_with_ndv(
     double bits = -(double)ndv * log(fpp) / ln2_squared;
 
     /* Convert to bytes, round up to block size */
-    size_t num_bytes = (size_t)(bits / 8.0) + 1;
+    double bytes = bits / 8.0;
+    if (!(bytes < (double)(SIZE_MAX - BLOOM_FILTER_BLOCK_SIZE))) {
+        return NULL;  /* does not fit size_t (also NaN): the conversion would be undefined */
+    }
+    size_t num_bytes = (size_t)bytes + 1;
 
     return carquet_bloom_filter_create(num_bytes);
 }
